@@ -96,7 +96,13 @@ fn one_slice(rep: &mut Report, rec: &mut Rec, len: usize, a: Option<i64>, b: Opt
 /// The slice inside a larger expression: what follows (a projection's right-hand
 /// side, a pipe, a flatten, a filter, a function call) and what precedes it must
 /// not change which elements are selected or their order.
-const CTX_FORMS: &[&str] = &["id", "bar", "flat", "filter", "first", "last", "length", "star", "again", "falsy", "lit", "sorted", "rev2", "mapid", "paren-star", "window", "window"];
+const CTX_FORMS: &[&str] = &[
+    "id", "bar", "flat", "filter", "first", "last", "length", "star", "again", "falsy", "lit", "sorted", "rev2", "mapid", "paren-star", "window", "window",
+    // the array being sliced is what a projection LEFT: rows that project to null are dropped before the slice counts
+    "holes-pipe", "holes-paren", "holes-flat", "holes-slice", "holes-filter", "holes-values",
+    // the array being sliced is built by a multi-select (on a null current node that is null, not a list)
+    "ml", "ml-pipe", "ml-null", "ml-null-pipe",
+];
 
 /// Element i of the "falsy" documents: every falsy JSON value, zero, and two truthy ones;
 /// position 7 holds null, which a slice (a projection) drops from its result.
@@ -146,6 +152,29 @@ fn one_ctx(rep: &mut Report, rec: &mut Rec, form: &str, len: usize, a: Option<i6
         "star" => (Value::Array((0..len as i64).map(|i| json!([i])).collect()), format!("@{}[0]", sl)),
         "falsy" => (Value::Array((0..len).map(|i| serde_json::from_str(FALSY_KINDS[i % 8]).unwrap()).collect()), format!("@{}", sl)),
         "lit" => (json!(null), format!("`{}`{}", ints, sl)),
+        h if h.starts_with("holes-") => {
+            // row i carries v = i unless i % 3 == 1 (then it has no v, or a null v)
+            let rows = Value::Array((0..len as i64).map(|i| if i % 3 == 1 { if i % 2 == 0 { json!({"w": i}) } else { json!({"v": null}) } } else { json!({"v": i}) }).collect());
+            match h {
+                "holes-pipe" => (rows, format!("@[*].v | {}", sl)),
+                "holes-paren" => (rows, format!("(@[*].v){}", sl)),
+                "holes-flat" => (rows, format!("@[].v | {}", sl)),
+                "holes-slice" => (rows, format!("@[0:].v | {}", sl)),
+                "holes-filter" => (rows, format!("(@[?`true`].v){}", sl)),
+                _ => (json!({"o": (0..len.min(10) as i64).map(|i| (format!("k{}", i), if i % 3 == 1 { json!({}) } else { json!({"v": i}) })).collect::<serde_json::Map<String, Value>>()}), format!("o.*.v | {}", sl)),
+            }
+        }
+        m if m.starts_with("ml") => {
+            let n = len.min(24);
+            let members = (0..n).map(|i| if i % 2 == 0 { format!("@[{}]", i) } else { format!("`{}`", i) }).collect::<Vec<_>>().join(", ");
+            let members = if n == 0 { "`0`".to_string() } else { members };
+            match m {
+                "ml" => (ints, format!("[{}]{}", members, sl)),
+                "ml-pipe" => (ints, format!("[{}] | {}", members, sl)),
+                "ml-null" => (json!({"some": 1}), format!("nope.[{}]{}", members, sl)),
+                _ => (json!({"some": 1}), format!("nope | [{}] | {}", members, sl)),
+            }
+        }
         _ => (ints, format!("@{} | @[::-1] | @[::-1]", sl)),
     };
     let got = match guarded(|| jmespath::compile(&text).and_then(|e| e.search(rcvar_of(&doc)))) {
@@ -160,8 +189,21 @@ fn one_ctx(rep: &mut Report, rec: &mut Rec, form: &str, len: usize, a: Option<i6
         _ => show(&got),
     };
     let _ = writeln!(rec.out, "P {} {} {} {} {} | {}", form, len, part(a), part(b), part(c), shown);
-    let idx = slice_indices(len as i128, a.map(|x| x as i128), b.map(|x| x as i128), step as i128);
+    let kept: Vec<i64> = match form {
+        "holes-values" => (0..len.min(10) as i64).filter(|i| i % 3 != 1).collect(),
+        h if h.starts_with("holes-") => (0..len as i64).filter(|i| i % 3 != 1).collect(),
+        "ml" | "ml-pipe" => (0..len.min(24).max(1) as i64).collect(),
+        _ => vec![],
+    };
+    let idx = if form.starts_with("holes-") || form == "ml" || form == "ml-pipe" {
+        slice_indices(kept.len() as i128, a.map(|x| x as i128), b.map(|x| x as i128), step as i128)
+    } else {
+        slice_indices(len as i128, a.map(|x| x as i128), b.map(|x| x as i128), step as i128)
+    };
     let want = match form {
+        "ml-null" | "ml-null-pipe" => "N".to_string(),
+        "ml" | "ml-pipe" if len == 0 => format!("[{}]", idx.iter().map(|_| "0".to_string()).collect::<Vec<_>>().join(",")),
+        h if h.starts_with("holes-") || h == "ml" || h == "ml-pipe" => format!("[{}]", idx.iter().map(|i| kept[*i as usize].to_string()).collect::<Vec<_>>().join(",")),
         w if w.starts_with("window:") => {
             let inner = slice_indices(idx.len() as i128, w1.map(|x| x as i128), w2.map(|x| x as i128), w3.unwrap_or(1) as i128);
             format!("[{}]", inner.iter().map(|i| idx[*i as usize].to_string()).collect::<Vec<_>>().join(","))
@@ -188,6 +230,44 @@ fn one_index(rep: &mut Report, rec: &mut Rec, len: usize, n: i64) {
         index_case(rep, rec, len, n, &json!(null), &format!("`{}`[{}]", arr(len), n));
     }
     index_case(rep, rec, len, n, &arr(len), &format!("@[{}]", n));
+    if len <= 24 {
+        // the index applied to what a projection left (rows without the member are dropped first), and to a
+        // multi-select list (which is null, not a list, on a null current node)
+        let holes: Vec<i64> = (0..len as i64).filter(|i| i % 3 != 1).collect();
+        let rows = Value::Array((0..len as i64).map(|i| if i % 3 == 1 { json!({"w": i}) } else { json!({"v": i}) }).collect());
+        let k = if n < 0 { holes.len() as i64 + n } else { n };
+        let want_h = if k >= 0 && (k as usize) < holes.len() { holes[k as usize].to_string() } else { "N".to_string() };
+        let members = if len == 0 { "`0`".to_string() } else { (0..len).map(|i| if i % 2 == 0 { format!("@[{}]", i) } else { format!("`{}`", i) }).collect::<Vec<_>>().join(", ") };
+        let m = len.max(1) as i64;
+        let km = if n < 0 { m + n } else { n };
+        let want_m = if km >= 0 && km < m { km.to_string() } else { "N".to_string() };
+        let ints = arr(len);
+        let some = json!({"some": 1, "rows": [{"k": 1}, null]});
+        for (text, doc, want) in [
+            (format!("@[*].v | [{}]", n), &rows, want_h.clone()),
+            (format!("(@[*].v)[{}]", n), &rows, want_h.clone()),
+            (format!("@[].v | [{}]", n), &rows, want_h.clone()),
+            (format!("[{}][{}]", members, n), &ints, want_m.clone()),
+            (format!("[{}] | [{}]", members, n), &ints, want_m.clone()),
+            (format!("nope | [{}][{}]", members, n), &some, "N".to_string()),
+            (format!("nope.[{}] | [{}]", members, n), &some, "N".to_string()),
+            (format!("rows[1] | [`7`, @][{}]", n), &some, "N".to_string()),
+            (format!("map(&[`7`, k][{}], rows)[1]", n), &some, "N".to_string()),
+        ] {
+            rep.evaluations += 1;
+            let got = guarded(|| jmespath::compile(&text).and_then(|e| e.search(rcvar_of(doc))));
+            let shown = match &got {
+                Ok(Ok(v)) if v.is_null() => "N".to_string(),
+                Ok(Ok(v)) => v.to_string(),
+                other => format!("{:?}", other.as_ref().map(|r| r.as_ref().map(|v| v.to_string()).map_err(|e| e.to_string()))),
+            };
+            if shown == want {
+                rep.count("agree_index_into_projection_or_multiselect");
+            } else {
+                rep.violation("C07/index-into-a-projection-result-or-multi-select-differs-from-rule", json!({"expression": text, "document": doc, "expected": want, "got": shown}));
+            }
+        }
+    }
     if (-9..=9).contains(&n) {
         ragged_rows(rep, rec, len, n);
     }
